@@ -136,6 +136,10 @@ class Gen:
                     {"kind": "map", "values": {"kind": "ref", "target": t}})
         if k == "map_prim":
             inner, e = self.prim(allow_fmt=False)
+            if r.random() < self.prof.get("p_nullable_map_values", 0.3):
+                inner["nullable"] = True
+                e["nullable"] = True
+                self.features.add("nullable_map_values")
             return {"type": "object", "additionalProperties": inner}, {"kind": "map", "values": e}
         if k == "inline_obj":
             props, pexp, req = {}, {}, []
@@ -520,6 +524,12 @@ class Gen:
             for code in r.sample(["400", "401", "403", "404", "409", "422", "429", "500", "502", "503"], r.randint(1, 3)):
                 responses[code] = {"description": f"error {code}"}
                 rexp[code] = {"error": True}
+                if r.random() < self.prof.get("p_error_stream", 0.0):
+                    # a non-primary response with a streaming media type: the operation itself does not stream
+                    responses[code]["content"] = r.choice([
+                        {"application/octet-stream": {"schema": {"type": "string", "format": "binary"}}},
+                        {"text/event-stream": {"schema": {"type": "string"}}}])
+                    self.features.add("streaming_error_response")
             self.features.add("declared_errors")
         if r.random() < 0.15 or (self.prof.get("p_default_content", 0.0) and r.random() < 0.5):
             responses["default"] = {"description": "unexpected"}
@@ -529,6 +539,12 @@ class Gen:
                 responses["default"]["content"] = copy.deepcopy(responses[primary]["content"])
                 rexp["default"]["content"] = True
                 self.features.add("default_with_content")
+            elif r.random() < self.prof.get("p_default_content_nobody", 0.0) and not any(
+                    "content" in v for c, v in responses.items() if str(c).startswith("2")):
+                # an error-shaped default body next to a body-less success response (clean: the call must still raise)
+                responses["default"]["content"] = {"application/json": {"schema": {"type": "object", "properties": {"message": {"type": "string"}}}}}
+                rexp["default"]["content"] = True
+                self.features.add("default_with_content_bodyless_success")
         if r.random() < self.prof.get("p_3xx", 0.1):
             responses["302"] = {"description": "moved"}
             rexp["302"] = {"error": True}
